@@ -129,6 +129,9 @@ func badPeers(carrier string, n int, ending string) (string, string) {
 	time.Sleep(100 * time.Millisecond)
 	g1, f1 := quiesce(), countFds()
 	grow := int(float64(g1-g0)/float64(n) + 0.5)
+	if grow < 0 {
+		grow = 0 // goroutines of an earlier scenario that were still ending when the baseline was taken
+	}
 	fds := f1 - f0 - len(held) // the harness's own end of every held connection
 	fd := int(float64(fds)/float64(n) + 0.5)
 	if fd < 0 {
